@@ -5,9 +5,12 @@ from props.replays import generic_replay
 LEVEL = "proof"
 R = "pyrtcm.rtcmreader.RTCMReader"
 M = "pyrtcm.rtcmmessage.RTCMMessage"
-USES_EXTERNAL = ["ext.Stream.read", "ext.Stream.readline", "ext.errorhandler"]
+USES_EXTERNAL = ["ext.Stream.read", "ext.Stream.readline", "ext.errorhandler", "ext.Socket.recv"]
 TRUSTED = []
-ASSUMPTIONS = ["termination of read(): variant |src| - pos; obligation read.loop0.inv_step.variant_each_iteration_consumes_a_byte shows "
+ASSUMPTIONS = ["termination of SocketWrapper.read()/readline(): variants net_end - rpos / net_end - dpos (obligations loop0.variant_decreases, "
+               "loop0.variant_bounded_below) under the trusted recv() contract with a finite peer stream; _recv (plain and chunked) is proved "
+               "to report True only after taking at least one byte off that stream",
+               "termination of read(): variant |src| - pos; obligation read.loop0.inv_step.variant_each_iteration_consumes_a_byte shows "
                "that every iteration that goes round again has advanced pos by at least one byte, and pos <= |src| is invariant",
                "for-loops range over finite tables or range(); recursion of the walk follows the finite definition tree (depth <= 2, ground-checked)"]
 ARGUED = ["iteration over a finite stream finishes: each read() call strictly advances pos or ends with (None, None)"]
@@ -31,6 +34,9 @@ def units(tier):
     for q in ("__init__", "identity", "_do_attributes", "_set_attribute", "_set_attribute_group", "_set_attribute_optional",
               "_do_unknown", "_get_dict", "__setattr__"):
         us += func_units(f"{M}.{q}", tier)
+    # socket-backed streams: the wrapper's loops terminate on a finite peer stream (variants), and raise nothing
+    for q in ("_recv", "read", "readline"):
+        us += func_units(f"pyrtcm.socketwrapper.SocketWrapper.{q}", tier)
     us.append(ground_unit("C04.depth", depth_lemma))
     return us
 
